@@ -297,7 +297,7 @@ PROPS["C02"] = {
     "groups": [
         {"id": "shapes",
          "quick": ["c02::c02_args_slices", "c02::c02_args_mutable", "c02::c02_args_values", "c02::c02_args_callback_iterator",
-                   "c02::c02_returns", "c02::c02_boxed_object", "c02::c02_negative_twin",
+                   "c02::c02_returns", "c02::c02_boxed_object", "c02::c02_npo_options", "c02::c02_negative_twin",
                    # integer-coded results with an io::Error payload (every i32 OS code) - shared with C13
                    "c13e::c13e_io_codes", "c13e::c13e_roundtrip"],
          "timeout": 1800},
